@@ -67,7 +67,10 @@ def bind():
 
 def h64(obj) -> int:
     """64-bit hash; PYTHONHASHSEED is pinned by bin/check, workers are forked, so it is consistent across the run."""
-    return hash(obj) & MASK
+    try:
+        return hash(obj) & MASK
+    except TypeError:  # e.g. a bytearray value reported by a decoder
+        return hash(repr(obj)) & MASK
 
 
 def jsonable(x):
